@@ -425,26 +425,7 @@ fn c20_read_n0() {
 
 // @check props=C20,C22 tier=quick
 // @desc read with one stored sample: it is returned iff it matches the three masks (and the requested instance); read marks it READ and keeps it; SampleInfo states/counts/handles/valid_data/sample_rank; the instance becomes NOT_NEW and nothing else of any instance changes (C22: read/take never change instance_state or generation counts); NoData iff nothing matches; BadParameter iff the handle is unknown
-// @bounds 1 stored sample (all 5 change kinds, symbolic writer/timestamp/counts) of 1 instance (fully symbolic view/instance state, generation counts 0..10^6, handle with 2 symbolic bytes), sample- and view-state masks: every non-empty subset (one symbolic slot or ANY); instance-state mask: every singleton, max_samples 1..=4 or i32::MAX, specific handle none/known/unknown; unwind 2 (every loop of the operation runs at most once here; a larger bound multiplies the formula, see the ptab entry)
-// @assume I1: one InstanceState per handle and every stored sample has one; reader enabled
-// @assume I2: sample generation counts 0..10^6, <= the instance's current counts, non-decreasing along the storage order of an instance
-// @assume stub: InstanceHandle == is replaced by the equivalent branch-free 128-bit comparison (support_reader2::ih_eq; equivalence with the derived PartialEq proved over all inputs by c20_stub_equivalence)
-// @enc dcps::dcps_domain_participant::data_reader_entity::DataReaderEntity::create_sample_collection
-// @enc dcps::dcps_domain_participant::data_reader_entity::DataReaderEntity::read
-#[kani::proof]
-#[kani::unwind(2)]
-#[kani::stub(<InstanceHandle as PartialEq<InstanceHandle>>::eq, super::support_reader2::ih_eq)]
-fn c20_read_n1_small() {
-    let o = c20_body::<1, 1, 1, false>(false, Mode::Main);
-    kani::cover!(o.ok && !o.specific, "a collection was returned");
-    kani::cover!(o.ok && o.specific, "a collection was returned for a specific instance");
-    kani::cover!(o.nodata, "NoData");
-    kani::cover!(o.badparam, "BadParameter for an unknown handle");
-}
-
-// @check props=C20,C22 tier=thorough timeout=2400
-// @desc as c20_read_n1_small with a second instance and all mask subsets
-// @bounds 1 stored sample of one of 2 instances (fully symbolic view/instance state, generation counts 0..10^6, handle with 2 symbolic bytes), all three masks: every non-empty subset (two symbolic slots or ANY), max_samples 1..=4 or i32::MAX, specific handle none/known/unknown; unwind 3
+// @bounds 1 stored sample (all 5 change kinds, symbolic writer/timestamp/counts) of one of 2 instances (fully symbolic view/instance state, generation counts 0..10^6, handle with 2 symbolic bytes), all three masks: every non-empty subset (two symbolic slots or ANY), max_samples 1..=4 or i32::MAX, specific handle none/known/unknown; unwind 3, the loops over the collection being built capped at 2 iterations (one stored sample; per-loop bounds from the ptab entry, unwinding assertions on)
 // @assume I1: one InstanceState per handle and every stored sample has one; reader enabled
 // @assume I2: sample generation counts 0..10^6, <= the instance's current counts, non-decreasing along the storage order of an instance
 // @assume stub: InstanceHandle == is replaced by the equivalent branch-free 128-bit comparison (support_reader2::ih_eq; equivalence with the derived PartialEq proved over all inputs by c20_stub_equivalence)
@@ -479,26 +460,7 @@ fn c20_take_n0() {
 
 // @check props=C20 tier=quick
 // @desc take with one stored sample: it is returned iff it matches the three masks (and the requested instance); take removes it; SampleInfo states/counts/handles/valid_data/sample_rank; the instance becomes NOT_NEW and nothing else of any instance changes (C22: read/take never change instance_state or generation counts); NoData iff nothing matches; BadParameter iff the handle is unknown
-// @bounds 1 stored sample (all 5 change kinds, symbolic writer/timestamp/counts) of 1 instance (fully symbolic view/instance state, generation counts 0..10^6, handle with 2 symbolic bytes), sample- and view-state masks: every non-empty subset (one symbolic slot or ANY); instance-state mask: every singleton, max_samples 1..=4 or i32::MAX, specific handle none/known/unknown; unwind 2 (every loop of the operation runs at most once here; a larger bound multiplies the formula, see the ptab entry)
-// @assume I1: one InstanceState per handle and every stored sample has one; reader enabled
-// @assume I2: sample generation counts 0..10^6, <= the instance's current counts, non-decreasing along the storage order of an instance
-// @assume stub: InstanceHandle == is replaced by the equivalent branch-free 128-bit comparison (support_reader2::ih_eq; equivalence with the derived PartialEq proved over all inputs by c20_stub_equivalence)
-// @enc dcps::dcps_domain_participant::data_reader_entity::DataReaderEntity::create_sample_collection
-// @enc dcps::dcps_domain_participant::data_reader_entity::DataReaderEntity::take
-#[kani::proof]
-#[kani::unwind(2)]
-#[kani::stub(<InstanceHandle as PartialEq<InstanceHandle>>::eq, super::support_reader2::ih_eq)]
-fn c20_take_n1_small() {
-    let o = c20_body::<1, 1, 1, false>(true, Mode::Main);
-    kani::cover!(o.ok && !o.specific, "a collection was returned");
-    kani::cover!(o.ok && o.specific, "a collection was returned for a specific instance");
-    kani::cover!(o.nodata, "NoData");
-    kani::cover!(o.badparam, "BadParameter for an unknown handle");
-}
-
-// @check props=C20,C22 tier=thorough timeout=2400
-// @desc as c20_take_n1_small with a second instance and all mask subsets
-// @bounds 1 stored sample of one of 2 instances (fully symbolic view/instance state, generation counts 0..10^6, handle with 2 symbolic bytes), all three masks: every non-empty subset (two symbolic slots or ANY), max_samples 1..=4 or i32::MAX, specific handle none/known/unknown; unwind 3
+// @bounds 1 stored sample (all 5 change kinds, symbolic writer/timestamp/counts) of one of 2 instances (fully symbolic view/instance state, generation counts 0..10^6, handle with 2 symbolic bytes), all three masks: every non-empty subset (two symbolic slots or ANY), max_samples 1..=4 or i32::MAX, specific handle none/known/unknown; unwind 3, the loops over the collection being built capped at 2 iterations (one stored sample; per-loop bounds from the ptab entry, unwinding assertions on)
 // @assume I1: one InstanceState per handle and every stored sample has one; reader enabled
 // @assume I2: sample generation counts 0..10^6, <= the instance's current counts, non-decreasing along the storage order of an instance
 // @assume stub: InstanceHandle == is replaced by the equivalent branch-free 128-bit comparison (support_reader2::ih_eq; equivalence with the derived PartialEq proved over all inputs by c20_stub_equivalence)
@@ -517,7 +479,7 @@ fn c20_take_n1() {
 
 // @check props=C20 tier=quick known=KF-C20-1
 // @desc generation_rank and absolute_generation_rank of the returned sample equal the DDS definitions (2.2.2.5.1.10/11) computed from the sample's own generation counts -- restricted to the trigger of KF-C20-1 (expected to fail)
-// @bounds 1 stored sample of 1 instance (fully symbolic view/instance state, generation counts 0..10^6, handle with 2 symbolic bytes), sample- and view-state masks: every non-empty subset (one symbolic slot or ANY); instance-state mask: every singleton, max_samples 1..=4 or i32::MAX, specific handle none/known/unknown; unwind 2
+// @bounds 1 stored sample of one of 2 instances (fully symbolic view/instance state, generation counts 0..10^6, handle with 2 symbolic bytes), all three masks: every non-empty subset (two symbolic slots or ANY), max_samples 1..=4 or i32::MAX, specific handle none/known; unwind 3, the loops over the collection being built capped at 2 iterations
 // @assume trigger KF-C20-1: some returned sample's own disposed+no_writers generation count differs from the number of not-alive->alive transitions among the returned samples of its instance up to and including it (with one stored sample: its own count is not 0, i.e. the samples of earlier generations were taken or do not match)
 // @assume I1: one InstanceState per handle and every stored sample has one; reader enabled
 // @assume I2: sample generation counts 0..10^6, <= the instance's current counts, non-decreasing along the storage order of an instance
@@ -526,16 +488,16 @@ fn c20_take_n1() {
 // @enc dcps::dcps_domain_participant::data_reader_entity::DataReaderEntity::create_sample_collection
 // @enc dcps::dcps_domain_participant::data_reader_entity::DataReaderEntity::read
 #[kani::proof]
-#[kani::unwind(2)]
+#[kani::unwind(3)]
 #[kani::stub(<InstanceHandle as PartialEq<InstanceHandle>>::eq, super::support_reader2::ih_eq)]
 fn c20_ranks_n1__known() {
-    let o = c20_body::<1, 1, 1, false>(false, Mode::RanksKnown);
+    let o = c20_body::<1, 2, 2, true>(false, Mode::RanksKnown);
     kani::cover!(o.ok, "a collection was returned");
 }
 
 // @check props=C20 tier=quick
 // @desc generation_rank and absolute_generation_rank of the returned sample equal the DDS definitions (2.2.2.5.1.10/11) whenever the trigger of KF-C20-1 does not hold
-// @bounds 1 stored sample of 1 instance (fully symbolic view/instance state, generation counts 0..10^6, handle with 2 symbolic bytes), sample- and view-state masks: every non-empty subset (one symbolic slot or ANY); instance-state mask: every singleton, max_samples 1..=4 or i32::MAX, specific handle none/known/unknown; unwind 2
+// @bounds 1 stored sample of one of 2 instances (fully symbolic view/instance state, generation counts 0..10^6, handle with 2 symbolic bytes), all three masks: every non-empty subset (two symbolic slots or ANY), max_samples 1..=4 or i32::MAX, specific handle none/known; unwind 3, the loops over the collection being built capped at 2 iterations
 // @assume negation of trigger KF-C20-1: every returned sample's own disposed+no_writers generation count equals the number of not-alive->alive transitions among the returned samples of its instance up to and including it
 // @assume I1: one InstanceState per handle and every stored sample has one; reader enabled
 // @assume I2: sample generation counts 0..10^6, <= the instance's current counts, non-decreasing along the storage order of an instance
@@ -544,10 +506,10 @@ fn c20_ranks_n1__known() {
 // @enc dcps::dcps_domain_participant::data_reader_entity::DataReaderEntity::create_sample_collection
 // @enc dcps::dcps_domain_participant::data_reader_entity::DataReaderEntity::read
 #[kani::proof]
-#[kani::unwind(2)]
+#[kani::unwind(3)]
 #[kani::stub(<InstanceHandle as PartialEq<InstanceHandle>>::eq, super::support_reader2::ih_eq)]
 fn c20_ranks_n1__rest() {
-    let o = c20_body::<1, 1, 1, false>(false, Mode::RanksRest);
+    let o = c20_body::<1, 2, 2, true>(false, Mode::RanksRest);
     kani::cover!(o.ok, "a collection was returned");
 }
 
